@@ -3,6 +3,7 @@
 #include <memory>
 #include <optional>
 #include "common_types.h"
+#include "crash.h"
 
 namespace Teakra {
 #ifdef TEAKRA_VERIF
@@ -24,6 +25,7 @@ struct SharedMemory {
     }
 
     u16 ReadWord(u32 word_address) const {
+        ASSERT(word_address < 0x40000);
 #ifdef TEAKRA_VERIF
         if (verif_mem_hook)
             verif_mem_hook(word_address, false, 0);
@@ -34,6 +36,7 @@ struct SharedMemory {
         return low | ((u16)high << 8);
     }
     void WriteWord(u32 word_address, u16 value) {
+        ASSERT(word_address < 0x40000);
 #ifdef TEAKRA_VERIF
         if (verif_mem_hook)
             verif_mem_hook(word_address, true, value);
